@@ -264,6 +264,27 @@ CHECKS = {
              'correct cached raw form.',
         note='object ids, UIDVALIDITY, \\Recent and LIST order are '
              'normalised away'),
+    'C14': dict(
+        category='fault_enumeration', design='4/C14',
+        technique='fault enumeration with runtime oracles: per-step census '
+                  'of content ids between event-loop callbacks + post-fault '
+                  'dump; faults = task cancellation and EOF at every '
+                  'scheduler step, exception from every storage call, ENOSPC '
+                  'before every file-creating operation and process kill '
+                  'before every filesystem operation (maildir)',
+        text='dict: two-session scenarios around a victim MOVE/COPY/'
+             'MULTIAPPEND/EXPUNGE; the fault-free run yields S steps and C '
+             'storage calls and ALL 2(S+1)+C fault points are executed; a '
+             'message being moved must be in source or destination at every '
+             'step and in exactly one after OK, a MULTIAPPEND that does not '
+             'end in OK must leave none of its messages, NO/BAD must leave '
+             'contents unchanged. maildir: histories with MOVE/MULTIAPPEND/'
+             'COPY swept over every filesystem operation as failure point and '
+             'as kill point, judged after restart.',
+        note='storage-call faults happen instead of the call; filesystem '
+             'faults are limited to operations that can fail with ENOSPC; '
+             'atomicity of MULTIAPPEND across process death is a known '
+             'finding'),
 }
 
 NOT_YET = 'check not built yet in this round (see DESIGN.md section 4)'
